@@ -388,6 +388,21 @@ func funcInfoOf(name string) funcInfo {
 //@ func (*converter).Exists
 //@   ensures[C17] if-exist-sets-a-fresh-helper: appended(specBlock(c), old(specBlockBefore(c)), "if exist \"" + path + "\" (" + specSet(specName(len(c.funcs) > 0, c.funcCounter, specHelperName(old(c.varCounter)), false), "1") + ") else " + specSet(specName(len(c.funcs) > 0, c.funcCounter, specHelperName(old(c.varCounter)), false), "0")) && result0 == specRef(specName(len(c.funcs) > 0, c.funcCounter, specHelperName(old(c.varCounter)), false)) && c.varCounter == old(c.varCounter) + 1 && err == nil
 
+// The line-feed variable LF that string literals and the read / capture routines expand is defined
+// by a three-line prologue, emitted once, the first time something needs it.
+//@ func (*converter).addLf
+//@   ensures[C05,C17,C18] defined-once: c.lfSet && (old(c.lfSet) ==> c.startCode == old(c.startCode)) && (!old(c.lfSet) ==> appended(c.startCode, old(c.startCode), "(set LF=^", "", ")"))
+//@   ensures[C05] frame: sameExcept(c, old(c), "lfSet", "startCode")
+//
+//@ func (*converter).StringToString
+//@   ensures[C05,C08] bangs-escaped-and-line-feeds-named: result == strings.ReplaceAll(strings.ReplaceAll(value, "!", "^!"), "\n", "!LF!") && c.lfSet
+//
+//@ func (*converter).ReadFile
+//@   ensures[C17] line-feed-defined-for-the-read-routine: c.lfSet
+//
+//@ func (*converter).AppCall
+//@   ensures[C18] line-feed-defined-for-the-capture-routine: valueUsed ==> c.lfSet
+
 // specWord: how the Batch converter writes one argument of an external command (quoted when it is a
 // %reference% or contains a blank, bare otherwise).
 func specWord(a string) string {
